@@ -94,7 +94,15 @@ def correspond(ctx):
         valid.append((kw, c))
         snap = snapshot(c, corpus)
         has_float = any(isinstance(v, float) for v in c.to_dict().values())
+        # an option no configured hasher consumes (only possible under the "all" pseudo-scheme, where unsupported options are ignored by
+        # design) is stored as given and never coerced; INI text cannot carry its Python type.  Such a configuration is outside the
+        # "survives INI" claim for value TYPES (its decisions are still compared through the dict / copy / update / ctx-source paths).
+        known_opts = set(C04.ROUNDS_KW) | {"salt_size", "salt", "rounds", "truncate_error", "ident", "relaxed", "vary_rounds", "default", "deprecated", "schemes",
+                                            "min_verify_time", "harden_verify"}
+        untyped_ini = any(k.split("__")[-1] not in known_opts and not isinstance(v, str) for k, v in c.to_dict().items())
         for how in ("dict", "ini", "copy", "update-empty", "ctx-source", "ini-update"):
+            if untyped_ini and how in ("ini", "ini-update"):
+                continue
             try:
                 if how == "dict":
                     c2 = CryptContext(**c.to_dict())
